@@ -328,6 +328,56 @@ def hoist_args(root):
     return _rewrite_all(root, tr)
 
 
+def rename_params(root):
+    """Behaviour-preserving rewrite: parameters (other than self/cls) of functions without nested scopes are renamed,
+    unless the name is used as a keyword argument anywhere in the package or its tests (then callers depend on it)."""
+    import ast
+
+    kw_used = set()
+    for base in (os.path.join(root, "indi"), os.path.join(REPO, "tests"), os.path.join(REPO, "indi")):
+        for dp, dn, fn in os.walk(base):
+            for f in fn:
+                if f.endswith(".py"):
+                    try:
+                        t = ast.parse(open(os.path.join(dp, f), encoding="utf-8").read())
+                    except SyntaxError:
+                        continue
+                    for n in ast.walk(t):
+                        if isinstance(n, ast.Call):
+                            kw_used.update(k.arg for k in n.keywords if k.arg)
+                        if isinstance(n, ast.Constant) and isinstance(n.value, str) and n.value.isidentifier():
+                            kw_used.add(n.value)  # kwargs.get("perm"), getattr(x, "name") ...
+
+    class Ren(ast.NodeTransformer):
+        def __init__(self, names):
+            self.names = names
+
+        def visit_Name(self, node):
+            if node.id in self.names:
+                return ast.copy_location(ast.Name(id=node.id + "_a", ctx=node.ctx), node)
+            return node
+
+    def tr(tree):
+        k = 0
+        for fn_ in [x for x in ast.walk(tree) if isinstance(x, (ast.FunctionDef, ast.AsyncFunctionDef))]:
+            if any(x is not fn_ and isinstance(x, (ast.FunctionDef, ast.AsyncFunctionDef, ast.Lambda, ast.ClassDef, ast.Global, ast.Nonlocal, ast.ListComp, ast.DictComp, ast.SetComp, ast.GeneratorExp)) for x in ast.walk(fn_)):
+                continue
+            if fn_.decorator_list or fn_.name.startswith("__"):
+                continue
+            args = fn_.args.posonlyargs + fn_.args.args
+            names = {a.arg for a in args if a.arg not in ("self", "cls", "meta") and a.arg not in kw_used}
+            if not names:
+                continue
+            for a in args:
+                if a.arg in names:
+                    a.arg += "_a"
+            fn_.body = [Ren(names).visit(st) for st in fn_.body]
+            k += len(names)
+        return k
+
+    return _rewrite_all(root, tr)
+
+
 def run_one(entry, evidence_dir):
     mid, kind, props, rule, file, old, new = entry
     d = tempfile.mkdtemp(prefix="indilint-selftest-")
@@ -348,6 +398,8 @@ def run_one(entry, evidence_dir):
             res["classes"] = reorder_methods(d)
         elif file == "*add-logging*":
             res["functions"] = add_logging(d)
+        elif file == "*rename-params*":
+            res["params"] = rename_params(d)
         elif file == "*hoist-args*":
             res["hoisted"] = hoist_args(d)
         elif file == "*swap-eq*":
@@ -408,6 +460,7 @@ def run_for_property(prop: str, jobs: int = 16):
     entries.append((f"{prop}-add-logging", "preserve", [prop], None, "*add-logging*", "", ""))
     entries.append((f"{prop}-swap-eq", "preserve", [prop], None, "*swap-eq*", "", ""))
     entries.append((f"{prop}-hoist-args", "preserve", [prop], None, "*hoist-args*", "", ""))
+    entries.append((f"{prop}-rename-params", "preserve", [prop], None, "*rename-params*", "", ""))
     entries.append((f"{prop}-comp-to-loop", "preserve", [prop], None, "*comp-to-loop*", "", ""))
     t0 = time.time()
     evdir = tempfile.mkdtemp(prefix="indilint-selftest-ev-")
@@ -440,6 +493,7 @@ def main(argv=None):
     entries.append(("all-add-logging", "preserve", allprops, None, "*add-logging*", "", ""))
     entries.append(("all-swap-eq", "preserve", allprops, None, "*swap-eq*", "", ""))
     entries.append(("all-hoist-args", "preserve", allprops, None, "*hoist-args*", "", ""))
+    entries.append(("all-rename-params", "preserve", allprops, None, "*rename-params*", "", ""))
     entries.append(("all-comp-to-loop", "preserve", allprops, None, "*comp-to-loop*", "", ""))
     if sel:
         entries = [e for e in entries if set(e[2]) & sel]
